@@ -72,8 +72,8 @@ CLAIMS["C19"] = {
 }
 CLAIMS["C21"] = {
     "technique": _T + " of Alias::from_str on fully symbolic bytes filtered by the real UTF-8 validator",
-    "text": "For every string of 1, 2 (thorough: 3) bytes the solver shows that parsing an alias never panics, that an accepted alias prints to exactly the input and re-parses to itself, that empty input and ASCII control / white-space bytes are rejected and that printable ASCII is accepted. Partial claim: aliases only.",
-    "note": "Trusted: Kani/CBMC. Keys, DIDs, repository ids and user agents are outside (see evidence.outside_claim).",
+    "text": "For every string of 1, 2 (thorough: 3) bytes the solver shows that parsing an alias never panics, that an accepted alias prints to exactly the input and re-parses to itself, that empty input and ASCII control / white-space bytes are rejected and that printable ASCII is accepted; and that PublicKey::from_str never panics and returns exactly the 32 key bytes for every decoded multibase payload of 0-3, 33 and 34 symbolic bytes (base layer stubbed). Partial claim: aliases and the post-base-58 part of public keys.",
+    "note": "Trusted: Kani/CBMC; the multibase::decode stub. The base-58 layer, printing of keys, DIDs text prefix, repository ids and user agents are outside (see evidence.outside_claim).",
 }
 
 CLAIMS["C13"] = {
